@@ -225,3 +225,16 @@ Theorem C09_hint_key_of_packed_other : forall inflate c rest payload packed tail
   req_msg_id_of inflate (le32 crc_gzip ++ packed ++ tail) = 0.
 Proof. exact reqid_of_packed_other. Qed.
 Print Assumptions C09_hint_key_of_packed_other.
+
+(* ---- the hint key of the transition system is the hint key of the bytes ---------------------------------
+   [hint_key] of Client/Model.v works on abstract bodies, [req_msg_id_of] of TL/ReqId.v on the bytes the code
+   sees.  Client/HintKey.v: [wire inflate b bs] - bs is a wire form of the abstract body b (a result carries its
+   req_msg_id behind the constructor id, whatever follows; gzip_packed carries a stream that inflates to a wire
+   form of what it packs; anything else starts with another constructor id) - and on EVERY wire form the
+   byte-level function returns the 64-bit pattern of the id [hint_key] returns, 0 where it returns none. *)
+From MTV Require Import Client.HintKey.
+
+Theorem C09_hint_key_of_the_model_is_the_key_of_the_bytes : forall inflate b bs,
+  wire inflate b bs -> req_msg_id_of inflate bs = key_pattern b.
+Proof. exact hint_key_agrees. Qed.
+Print Assumptions C09_hint_key_of_the_model_is_the_key_of_the_bytes.
